@@ -227,24 +227,72 @@ def run(rep, tier):
     civ = F.one(IP + "CreateIndexVector")
     cis = F.one(IP + "CreateIndexString")
     rep.analysed(civ); rep.analysed(cis)
-    sets = [d for d in civ.decls.values() if "std::set<long" in (d.get("type") or "")]
-    asg = [n for n in civ.walk() if n.get("k") == "mcall" and (n.get("callee") or "").endswith("::assign") and show(n["obj"]) == "result"]
-    rets = [n for n in civ.walk() if n.get("k") == "return"]
     gciv = CFG(civ)
-    ok = len(sets) == 1 and nows(show(sets[0]["init"])).endswith("(result.begin(),result.end())") and len(asg) == 1 and \
-        [nows(show(a)) for a in asg[0]["args"]] == ["s.begin()", "s.end()"] and all(gciv.dominates(asg[0]["id"], r_["id"]) for r_ in rets if r_["id"] in gciv.where)
-    rep.check(ok, "R18.4", "vector-normalised", "result rebuilt from std::set (sorted, duplicate-free) before returning",
-              "IndexParser::CreateIndexVector does not pass its result through std::set before returning it", civ.loc(), sample=True)
-    loops = [n for n in civ.walk() if n.get("k") == "for" and n.get("cond") is not None]
-    okl = any(nows(show(l["cond"])) == "(i<=stop)" and nows(show(l["init"]["decls"][0]["init"])) == "start" for l in loops if l.get("init") and l["init"].get("k") == "decl")
-    rep.check(okl, "R18.4", "range-inclusive", "'a:b' expands to a..b inclusive", "IndexParser::CreateIndexVector does not expand a:b with i <= b", civ.loc())
+    rets = [n for n in civ.walk() if n.get("k") == "return"]
+    rdecls = {unwrap(r_["value"]).get("decl") for r_ in rets if r_.get("value") is not None and unwrap(r_["value"]).get("k") == "ref"}
+
+    def begin_end(args, decl):
+        """the two arguments are <decl>.begin(), <decl>.end()"""
+        if len(args) < 2:
+            return False
+        a0, a1 = unwrap(args[0]), unwrap(args[1])
+        return all(x.get("k") == "mcall" and unwrap(x.get("obj") or {}).get("decl") == decl for x in (a0, a1)) and \
+            (a0.get("callee") or "").endswith("::begin") and (a1.get("callee") or "").endswith("::end")
+
+    def ctor_args(d):
+        init = unwrap(d.get("init") or {})
+        while init.get("k") in ("cast", "bind", "cleanup") and init.get("sub") is not None:
+            init = unwrap(init["sub"])
+        return init.get("args") or []
+    ok = len(rdecls) == 1 and None not in rdecls
+    if ok:
+        rd = next(iter(rdecls))
+        sets = [d for d in civ.decls.values() if "std::set<long" in (d.get("type") or "") and begin_end(ctor_args(d), rd)]
+        asg = [n for n in civ.walk() if n.get("k") == "mcall" and (n.get("callee") or "").endswith("::assign") and unwrap(n["obj"]).get("decl") == rd
+               and any(begin_end(n["args"], d["decl"] if "decl" in d else d.get("id")) for d in sets)]
+        via_set = len(sets) == 1 and len(asg) == 1 and all(gciv.dominates(asg[0]["id"], r_["id"]) for r_ in rets if r_["id"] in gciv.where)
+        # equivalent idiom: sort, then erase(unique(..), end)
+        srt = [n for n in civ.walk() if n.get("k") == "call" and (n.get("callee") or "") == "std::sort" and begin_end(n["args"], rd)]
+        unq = [n for n in civ.walk() if n.get("k") == "mcall" and (n.get("callee") or "").endswith("::erase") and unwrap(n["obj"]).get("decl") == rd
+               and any(x.get("k") == "call" and (x.get("callee") or "") == "std::unique" and begin_end(x["args"], rd) for x in walk(n))]
+        via_sort = len(srt) == 1 and len(unq) == 1 and gciv.dominates(srt[0]["id"], unq[0]["id"]) and all(gciv.dominates(unq[0]["id"], r_["id"]) for r_ in rets if r_["id"] in gciv.where)
+        ok = via_set or via_sort
+    rep.check(ok, "R18.4", "vector-normalised", "result rebuilt from std::set (or sorted and made unique) before returning",
+              "IndexParser::CreateIndexVector does not pass its result through std::set (or sort + unique) before returning it", civ.loc(), sample=True)
+    # 'a:b' expands to a..b inclusive: the loop that appends its counter runs from the number before the delimiter while counter <= number after it
+    fciv = Fold(civ, record_calls=r"::push_back$", inline=False).run()
+    okl, whyl = False, "no loop appending its counter found"
+    for l in getattr(fciv, "loops", []):
+        pb = [e for e in fciv.events if e["kind"] == "call" and any(isinstance(g_[0], tuple) and g_[0] and g_[0][0] == "loop" and g_[0][1] == l["lid"] for g_ in e["guards"])
+              and len(e["args"]) == 1 and e["args"][0] in l["syms"].values()]
+        if not pb or not isinstance(l.get("cond"), tuple) or len(l["cond"]) != 3:
+            continue
+        j = pb[0]["args"][0]
+        k_ = [k for k, sy in l["syms"].items() if sy == j][0]
+        c = l["cond"]
+        other = c[2] if c[1] == j else c[1]
+        from vsa.cases import decide
+        STOP = sp.Symbol("_STOP", integer=True)
+        from sympy.core.function import AppliedUndef
+        lc = [a_ for a_ in (other.atoms(AppliedUndef) if hasattr(other, "atoms") else []) if str(a_.func) == "lexical_cast"]
+        if len(lc) != 1:
+            continue
+        tv = [decide(c, {j: v, lc[0]: STOP}) for v in (STOP - 1, STOP, STOP + 1)]
+        other = lc[0]
+        start = l["init"].get(k_)
+        okl = tv == [True, True, False] and sp.simplify(l["step"][k_] - j - 1) == 0 and "lexical_cast" in str(start) and "lexical_cast" in str(other) and str(start) != str(other) \
+            and "substr" in str(start)
+        whyl = "the range loop runs from %s while %s" % (str(start)[:80], fciv.cond_str(c))
+        break
+    rep.check(okl, "R18.4", "range-inclusive", "'a:b' expands to a..b inclusive", "IndexParser::CreateIndexVector does not expand a:b to a, a+1, ..., b: " + whyl, civ.loc())
     seps = [n for n in civ.walk() if n.get("k") == "construct" and "Tokenizer" in (n.get("type") or "") and len(n.get("args", [])) >= 2]
     rep.check(any(set(lit_str(n["args"][1]) or "") >= {" ", ","} for n in seps), "R18.4", "vector-separators", "tokens separated by blanks or commas", "CreateIndexVector separators changed", civ.loc())
-    sets2 = [d for d in cis.decls.values() if "std::set<long" in (d.get("type") or "")]
-    su = [d for d in cis.decls.values() if d.get("name") == "sorted_unique"]
-    ok = len(sets2) == 1 and nows(show(sets2[0]["init"])).endswith("(indeces.begin(),indeces.end())") and len(su) == 1 and re.search(r"\(s\.begin\(\),s\.end\(\)(,std::allocator<long>\(\))?\)$", nows(show(su[0]["init"]))) is not None
-    uses = [n for n in cis.walk() if n.get("k") == "ref" and n.get("name") == "indeces"]
-    ok = ok and len(uses) == 2
+    ipn = cis.j["params"][0]
+    ipd = ipn.get("decl")
+    sets2 = [d for d in cis.decls.values() if "std::set<long" in (d.get("type") or "") and begin_end(ctor_args(d), ipd)]
+    su = [d for d in cis.decls.values() if "std::vector<long" in (d.get("type") or "") and any(begin_end(ctor_args(d), d2.get("decl", d2.get("id"))) for d2 in sets2)]
+    uses = [n for n in cis.walk() if n.get("k") == "ref" and n.get("decl") == ipd]
+    ok = len(sets2) == 1 and len(su) == 1 and len(uses) == 2
     rep.check(ok, "R18.4", "string-normalised", "string built from the sorted unique copy only", "IndexParser::CreateIndexString uses the raw input after/without normalising it through std::set", cis.loc(), sample=True)
     # one iteration of the printing loop, decided for the four cases (next value continues the run?) x (a run is open?)
     fo3 = Fold(cis, opaque_types=r"std::vector<|std::set<").run()
